@@ -121,6 +121,13 @@ class Valuer:
         txt = norm(t)
         if txt in self.facts.truth and self.facts.truth[txt] != truth:
             raise Contradiction(txt)
+        if isinstance(t, ast.Name) and t.id in self.env:
+            # a test on a local that holds a known constant (a flag) is decided by that constant
+            a = self.env[t.id]
+            if a is NONE and truth:
+                raise Contradiction(txt)
+            if isinstance(a, P) and a.is_const() and (a.const_value() != 0) != truth:
+                raise Contradiction(txt)
         self.facts.truth[txt] = truth
         if isinstance(t, ast.Call) and txt in ("is_guard()", "ignore_errors()"):
             return
